@@ -16,32 +16,32 @@ def claim(pid, technique, text, note, ref, engine="shape"):
 
 
 claim("C03", "sibling-table agreement + traversal-completeness lint over the syntax tree (syn)",
-      "Decides, for every row at once, the structural clauses the CEK semantics rests on: transition tables total, frames paired, apply order, read-back visits every constructor with sub-terms, 91-row arity/force agreement across four independent tables, case-on-constant table. Necessary conditions of the property; each is exact on the current tree.",
+      "Decides, for every row at once, the structural clauses the CEK semantics rests on: transition tables total, frames paired, apply order, read-back visits every constructor with sub-terms and threads the binder depth, supplying an argument to a builtin cannot fail, 91-row arity/force agreement across four independent tables, case-on-constant table gated by exactly semantics E. Necessary conditions of the property; each is exact on the current tree.",
       "does not decide that transitions compute the specified value (environment indexing, builtin results); trusts syn's parse", "DESIGN.md §3 C03")
 claim("C04", "sibling-table agreement, interval evaluation of piecewise-affine maps, exhaustive evaluation of a finite decision table",
-      "91-row agreement of arity and argument types between evaluator, cost model and Aiken signature; which division operation each division builtin calls; tag-range maps mutually inverse (endpoint evaluation); semantics gate evaluated on all language x protocol inputs.",
+      "91-row agreement of arity and argument types between evaluator, cost model and Aiken signature; which division operation each division builtin calls; consByteString wraps with floor modulo 256; tag-range maps mutually inverse (endpoint evaluation, if-chain or match form, named constants resolved) and written down only where they are evaluated; pallas' big-integer representation taken apart only by the two converters; semantics gate evaluated on all language x protocol inputs.",
       "numerical results, bit numbering, crypto and BLS arithmetic are values and are not decided", "DESIGN.md §3 C04")
 claim("C05", "must-pass-through / who-may-write / table-wiring rules over syntax tree and MIR control-flow graph",
-      "All-paths accounting discipline: one step charge of the right kind first in every compute arm, start-up before the loop, flush before Done and linear in counts, cost -> pay -> call, single writer of the budget testing both dimensions, 400 cost-parameter wirings name-checked against the field they initialise, mem/cpu sized identically for 91 builtins.",
+      "All-paths accounting discipline: one step charge of the right kind first in every compute arm, start-up before the loop, flush before Done and linear in counts, cost -> pay -> call, single writer of the budget testing both dimensions, 400 cost-parameter wirings name-checked against the field they initialise, mem/cpu sized identically for 91 builtins; positional parameter lists free of duplicates, contiguous, ascending within a builtin and consistently ordered across V1/V2/V3; Data leaves sized by the constants' measures through the big-integer converters; the four division builtins keep their sibling costing shapes under every semantics variant.",
       "values of size measures and costing polynomials and the ledger's coefficient vectors are not decided", "DESIGN.md §3 C05", "shape+flow")
 claim("C06", "sibling-table agreement between type checker and evaluator; force-discipline lint over builder chains",
       "Rules out structural run-time errors that come from table drift: checker signature = evaluator unwrappers for 91 builtins, force counts on every Term::Builtin chain, Data representation tables inverse per type kind; plus three clauses of the checker itself: type equality / unification compare list lengths wherever they zip, opaque erasure recurses into every type component, and the implicit-cast flag of unify depends on the expected type only. Thin: soundness of inference is not claimed.",
       "type soundness proper (unification, generalisation, opaque erasure, monomorphisation) is not decided", "DESIGN.md §3 C06")
 claim("C08", "sibling-table agreement over the flat codec, per-arm version consistency, derived-hash structural rule",
-      "Encoder and decoder tables (Term x3, Constant/Type x6, 91 builtin tags, 4 binders) bijective and equal row by row incl. field order and payload types; every Plutus-version branch internally consistent; hash derived from the code in the same call and never stored.",
+      "Encoder and decoder tables (Term x3, Constant/Type x6, 91 builtin tags, 4 binders) bijective and equal row by row incl. field order and payload types; per constant kind both encoders and both decoders delegate the payload to the same library codec; every Plutus-version branch internally consistent; hash derived from the code in the same call and never stored; blueprint entries accepted on the hash of the program's own re-encoding; apply_parameter rewrites exactly the targeted validators.",
       "byte-level behaviour of pallas_codec::flat / minicbor and canonicality of foreign CBOR are not decided", "DESIGN.md §3 C08")
 claim("C15", "sibling-table agreement between pretty-printer and peg grammar (token tree of peg::parser!)",
-      "Printer and parser tables are mutual inverses row by row: 91 builtin names, 11 type names, constant keywords and literal syntax, term keywords, Data constructors, escape forms and their unit; grammar actions are fallible.",
+      "Printer and parser tables are mutual inverses row by row: 91 builtin names, 11 type names, constant keywords and literal syntax, term keywords, Data constructors, escape forms and their unit (a char is narrowed to u8 only under an is_ascii guard); grammar actions are fallible and free of shift/additive precedence traps; every closing bracket tolerates the printer's soft breaks; separators between printed items are never empty in flat layout; Data constructor indices and big integers go through the shared converters.",
       "layout, big-integer text and hex payloads of arbitrary length are not decided", "DESIGN.md §3 C15")
 
 claim("C01", "specification-table comparison of the operator lowering, contradiction rule (lazy vs commuted), sibling tables for Data casts",
-      "13-row operator table (builtin, operand order, laziness) equals the language specification; no lazily lowered operator is ever commuted; checker and generator agree on operand kinds; 4x12 to-/from-Data table inverse per type kind; Air interpreter total.",
+      "13-row operator table (builtin, operand order, laziness) equals the language specification; no lazily lowered operator is ever commuted; checker and generator agree on operand kinds; 4x12 to-/from-Data table inverse per type kind; Air interpreter total; decoder cache keys injective over type constructors.",
       "the meaning of lowering proper (hoisting, monomorphisation, recursion, decision trees, expect decoders) is a statement about values and is not decided", "DESIGN.md §3 C01")
 claim("C02", "obligation table between evaluator failure exits and constant-folder guards; typestate of the optimiser pipeline; traversal completeness",
-      "Every value-dependent failure exit of each of the 42 foldable builtins (extracted from call and costing arms) is matched by a guard of is_error_safe; the order-agnostic set is a subset of the commutative builtins; Constr/Case are only produced after every reducer that cannot handle them; substitution and occurrence walks are complete and agree.",
+      "Every value-dependent failure exit of each of the 42 foldable builtins (extracted from call and costing arms) is matched by a guard of is_error_safe; the order-agnostic set is a subset of the commutative builtins; Constr/Case are only produced after every reducer that cannot handle them; substitution and occurrence walks are complete and agree; the inliner's inline/drop decisions admit only CEK value forms; positional reducers test saturation; no reducer decodes Data big integers by hand; the BLS compressor keeps G1/G2 names apart.",
       "soundness of inline/curry/split rewrites (whether a rewritten term evaluates equally) is not decided; the folder's default budget is assumed sufficient for one builtin call", "DESIGN.md §3 C02")
 claim("C11", "traversal completeness with flow-to-recursion, ordered-protocol (must-pass-through) rule on binder arms, error-path structure",
-      "10 walks x 10 constructors: every sub-term reaches the recursive call; in the 4 binder-aware conversions and the interner the scope protocol declare->lookup->start->body->end(->remove) holds in order, unconditionally, on the same unique; failed lookups are Err on every path; TryFrom impls own a Converter and propagate.",
+      "10 walks x 10 constructors: every sub-term reaches the recursive call; in the 4 binder-aware conversions and the interner the scope protocol declare->lookup->start->body->end(->remove) holds in order, unconditionally, on the same unique, and every scope primitive performs its essential operation unconditionally; failed lookups are Err on every path (loop or iterator-chain form), never a default; TryFrom impls own a Converter and propagate.",
       "level arithmetic under shadowing is a runtime quantity: the pairing rule is necessary for correct binding, not sufficient", "DESIGN.md §3 C11")
 
 claim("C10", "panic-site audit over the resolved MIR call graph with derived discharge of arity-indexed sites and a reviewed per-function table; guard recognition for narrowing conversions",
